@@ -189,6 +189,19 @@ def gen_input(rng, kind, size):
             k = rng.choice(["zeros", "rle", "random", "period", "text", "lowent"])
             out += gen_input(rng, k, rng.choice([1, 7, 100, 1000, 8192, 20000]))
         return bytes(out[:size])
+    if kind == "longlen":    # a literal run or a match longer than 65535 at the head, then compressible data whose statistics change
+        raw = min(size, rng.choice([65536, 66000, 70000, 90000]))
+        if rng.random() < 0.5:
+            head = bytes([rng.randrange(256)]) * raw
+        else:
+            head = bytes(((i >> 1) if (i & 1) else (i >> 9)) & 255 for i in range(raw))
+        rest = size - raw
+        a = gen_input(rng, "text", rest // 2)
+        ctr, rec = 0, bytearray()
+        while len(rec) < rest - rest // 2:
+            ctr += 1 + rng.randrange(4)
+            rec += ctr.to_bytes(4, "little") + bytes(rng.choice(b"\x00\x01\x02\xff") for _ in range(12))
+        return head + a + bytes(rec[:rest - rest // 2])
     if kind == "selfcopy":   # repeated self-references with small edits: repcode heavy
         out = bytearray(rng.randbytes(rng.choice([16, 64, 300])))
         while len(out) < size:
